@@ -27,7 +27,7 @@ macro_rules! impl_set_match_arms {
         I16, "i16";
         I32, "i32";
         I64, "i64";
-        U128, "u128";
+        I128, "i128";
         F32, "f32"; 
         F64, "f64" ;
         String, "string";
